@@ -2,6 +2,7 @@ import PqV.Impl.Access
 import PqV.Gen.Access
 import Mathlib.Tactic.Linarith
 import PqV.Lemmas.Access
+import PqV.Gen.HandleState
 /-!
 # C06 — every partial read agrees with the corresponding part of the full read
 -/
@@ -146,5 +147,16 @@ theorem program_reads_whole_row_groups (rgs : List RG) (sels : List Sel) (out : 
         exact fun rg hrg => hmid rg (getInt_mem mid out i h rg hrg)
 
 example : runSels [[1, 2], [3], [4, 5, 6], [7]] [.slice (some 1) none 1, .slice none none (-1), .pick 0] = some [[7]] := by decide
+
+/-- the state a derived handle (`pf[i]`, `pf[a:b]`, hence `head` / `iter_row_groups`) and a pickled or
+    copied handle take over from their source, as the source has it now (REGENERATED): file name, opener,
+    metadata (the sliced copy for a derived handle), the nulls policy, the RESOLVED dtypes of the parent
+    (`_base_dtype`: a slice must not re-derive them from its own row groups only), the time-zone map and
+    the column-index dtype — the same seven entries on both paths -/
+theorem handle_state_now :
+    PqV.Gen.HandleState.pickled = ["fn=self.fn", "open=self.open", "fmd=self.fmd", "pandas_nulls=self.pandas_nulls",
+      "_base_dtype=self._base_dtype", "tz=self.tz", "_columns_dtype=self._columns_dtype"] ∧
+    PqV.Gen.HandleState.derived = ["fn=self.fn", "open=self.open", "fmd=fmd", "pandas_nulls=self.pandas_nulls",
+      "_base_dtype=self._base_dtype", "tz=self.tz", "_columns_dtype=self._columns_dtype"] := by decide
 
 end PqV.Props.C06
